@@ -16,8 +16,10 @@ token files.  What the harness replaces:
   * helper threads / processes exactly as in schedeng.
 
 Engine events
-  ["submit", j] ["step", s] ["deliver", k] ["fs", p] ["race", q] ["reclaim", p, k] ["jobgone", j]
+  ["submit", j] ["step", s] ["deliver", k] ["fs", p] ["race", q] ["racedel"] ["reclaim", p, k] ["jobgone", j]
   ["drop", s] ["restart", s]
+`racedel`: at the next `TokenFile.delete()` of a releasing instance, a watcher thread of another instance that is
+entitled to remove the same file does so between `is_file()` and `unlink()`.
 `race q`: at the next `open("wt")` of a token file by another instance, every pending event of `q`
 is dispatched before the content is written (the reader sees the half-written file).
 
@@ -64,10 +66,18 @@ class HookPath(_PosixPath):
             return _HalfFile(f, self, eng)
         return f
 
+    def is_file(self):
+        r = super().is_file()
+        eng = HookPath.engine
+        if r and eng is not None and self.name.endswith(".token"):
+            eng._between_check_and_unlink(self.name)
+        return r
+
     def unlink(self, missing_ok=False):
+        existed = os.path.lexists(self)
         super().unlink(missing_ok=missing_ok)
         eng = HookPath.engine
-        if eng is not None and self.name.endswith(".token"):
+        if existed and eng is not None and self.name.endswith(".token"):
             eng._file_deleted(self.name)
 
 
@@ -152,6 +162,8 @@ class MultiWorld(schedeng.World):
         self.active = set()  # file ids whose job lock is held / process alive
         self.ipc = None
         self.race = []
+        self.racedel = False
+        self.in_release = None
         self.notified = False
         self.oplog = []  # (op, out, observation)
         self.viol = []  # (prop, key, what)
@@ -228,12 +240,20 @@ class MultiWorld(schedeng.World):
             world.cur = s
             world.notified = False
             name = dep.name
-            existed = (world.dir / name).is_file()
+            plain = _PosixPath(world.dir) / name
+            existed = plain.is_file()
+            world.in_release = s
             try:
                 real_release(dep)
-            finally:
+            except BaseException:
+                world.in_release = None
                 world.cur = None
-            found = existed and not (world.dir / name).is_file()
+                world._log(["release", s, fid(name)], {"ok": False, "notify": world.notified})
+                raise
+            finally:
+                world.in_release = None
+                world.cur = None
+            found = existed and not plain.is_file()
             world._log(["release", s, fid(name)], {"ok": found, "notify": world.notified})
 
         def notify():
@@ -399,6 +419,36 @@ class MultiWorld(schedeng.World):
             self.cur = None
         self._log(["fsEvent", p], {"ok": ok, "notify": self.notified})
 
+    def _reclaim(self, p, i):
+        """the watcher thread of instance `p` ends: the real `TokenFile.delete()`"""
+        name, tf = self.watched[p].pop(i)
+        cur, self.cur = self.cur, p
+        inr, self.in_release = self.in_release, None
+        try:
+            tf.delete()
+        finally:
+            self.cur, self.in_release = cur, inr
+        out = {"ok": True, "notify": False}
+        if inr is not None:
+            # linearised before the release it interrupts: the releasing instance has already recounted
+            out["skip_proc"] = inr
+        self._log(["reclaim", p, fid(name)], out)
+
+    def _between_check_and_unlink(self, name):
+        """`TokenFile.delete` of a releasing instance has just seen `is_file()` true: if planned (`racedel`), the
+        watcher thread of another instance removes the same file first"""
+        if not self.racedel or self.in_release is None:
+            return
+        p = self.in_release
+        for q in range(self.ns):
+            if q == p or self.dropped[q]:
+                continue
+            for i, (n, tf) in enumerate(self.watched[q]):
+                if n == name and fid(n) not in self.active:
+                    self.racedel = False
+                    self._reclaim(q, i)
+                    return
+
     def _job_gone(self, f):
         if f in self.active:
             self.active.discard(f)
@@ -431,14 +481,9 @@ class MultiWorld(schedeng.World):
         elif k == "race":
             self.race.append(ev[1])
         elif k == "reclaim":
-            p, i = ev[1], ev[2]
-            name, tf = self.watched[p].pop(i)
-            self.cur = p
-            try:
-                tf.delete()
-            finally:
-                self.cur = None
-            self._log(["reclaim", p, fid(name)], {"ok": True, "notify": False})
+            self._reclaim(ev[1], ev[2])
+        elif k == "racedel":
+            self.racedel = True
         elif k == "jobgone":
             job = self.jobs[ev[1]]
             self.gone_orphans.add(ev[1])
@@ -525,6 +570,8 @@ class MultiWorld(schedeng.World):
             ch += [["drop", s] for s in range(self.ns) if not self.dropped[s] and self.ipc is None and sum(not d for d in self.dropped) > 1]
         if faults.get("restart"):
             ch += [["restart", s] for s in range(self.ns) if self.dropped[s]]
+        if faults.get("racedel") and not self.racedel:
+            ch.append(["racedel"])
         if faults.get("race"):
             ch += [["race", q] for q in range(self.ns) if self.alive[q] and not self.dropped[q] and q not in self.race]
         return ch
@@ -571,6 +618,15 @@ def quiescence_monitors(w, submitted_all):
         return fails  # consequences of the recorded observer death
     so = w.sobs()
     o = w.tobs()
+    for i, x in enumerate(so):
+        if x is not None and x["future"].startswith("exc:"):
+            if x["future"] == "exc:FileNotFoundError":
+                fails.append(("C09", "release-raises-when-watcher-deleted-first",
+                              f"job {i} of scheduler {w.mspec['jobs'][i]['sched']}: TokenFile.delete() saw is_file() true, the watcher thread of another "
+                              f"process removed the file, unlink() raised FileNotFoundError out of release(): the job's coroutine ends with the "
+                              f"exception (state {x['state']}), the remaining locks are not released, aio_notify() is skipped and unfinishedJobs is never decremented"))
+            else:
+                fails.append(("C09", "job-coroutine-raised:" + x["future"][4:], f"job {i}: aio_submit ended with {x['future'][4:]} (state {x['state']})"))
     hanging = [i for i, x in enumerate(so) if x is not None and x["future"] == "pending" and not x["orphan"]]
     for i in hanging:
         x = so[i]
@@ -638,7 +694,7 @@ def run_schedule(spec, chooser, faults=None, max_events=1500):
 
 
 def run_random(spec, rng, faults=None, fault_p=0.04, max_events=1500):
-    budget = {"drop": 1, "restart": 1, "race": 3}
+    budget = {"drop": 1, "restart": 1, "race": 3, "racedel": 2}
 
     def chooser(w, ch, fch):
         fch = [f for f in fch if budget.get(f[0], 0) > 0]
@@ -667,4 +723,4 @@ def run_replay(spec, events, complete=True, max_events=1500):
         if not complete:
             return None
         return ch[0]
-    return run_schedule(spec, chooser, {"drop": True, "restart": True, "race": True}, max_events)
+    return run_schedule(spec, chooser, {"drop": True, "restart": True, "race": True, "racedel": True}, max_events)
